@@ -340,11 +340,23 @@ namespace igris
                 pop_front();
         }
 
-        bool is_correct()
+        // true when the list is a well-formed ring: the walk along next
+        // comes back to the head and every visited node is pointed back at
+        // by its successor. The back-pointer test makes next injective on
+        // the visited nodes, so the walk returns on an ill-formed ring too
+        // (comparing circular_size() with reverse_circular_size() did not
+        // return on a ring with a tail, and accepted wrong back links).
+        bool is_correct() const
         {
-            size_t circsize = list.circular_size();
-            size_t revcircsize = list.reverse_circular_size();
-            return circsize == revcircsize;
+            const dlist_node *it = &list;
+            do
+            {
+                const dlist_node *nx = it->next_node();
+                if (nx->prev_node() != it)
+                    return false;
+                it = nx;
+            } while (it != &list);
+            return true;
         }
 
         type &first()
